@@ -188,6 +188,74 @@ Example C23_run_nonvacuous :
   = [OYield 1; OYield 0; OYield 2; ORaise ERequestAbort].
 Proof. vm_compute. repeat split; reflexivity. Qed.
 
+(* ------------------------------------------------------------------ closed or halted: close() / thrown GeneratorExit, PlanHalt *)
+From BV Require Import Proofs.PairedClose.
+
+(* The script is  s ++ i :: s2  with s plain and i = Close or a thrown GeneratorExit kind.  While the wrapped plan runs
+   (the do-prefix has been answered completely, the plan is at p') and the plan accepts the close: the plan is closed,
+   NO undo message is emitted (finalize_wrapper's `except GeneratorExit: cleanup = False`; from C22's
+   C22_no_cleanup_when_closed_in_plan: the only plan touched is the wrapped one), close() returns / the thrown kind
+   comes back, and whatever follows in the script is not consumed. *)
+Theorem C23_stage_wrapper_closed_in_plan :
+  forall (P : Type) (resume : P -> input -> outcome P) (mk : mview -> msg) (is_status : val -> bool)
+         (roots : list dev) (p : P) (s : list input) ms acc rest p' v i s2,
+    plain s = true ->
+    lp_split is_status (stage_do mk roots) (Send VNone :: s) = (ms, Some (TRet v, acc, rest)) ->
+    after resume p (Send VNone :: rest) = Some p' ->
+    close_result (resume p' Close) = CloseOk -> ge_input i = true ->
+    trace (stage_wrapper_resume resume mk is_status roots) (stage_wrapper_init mk roots p) (Send VNone :: s ++ i :: s2)
+    = stage_ref resume mk is_status roots p s ++ [closed_obs i].
+Proof. exact @stage_closed_in_plan. Qed.
+Print Assumptions C23_stage_wrapper_closed_in_plan.
+
+Theorem C23_suspend_wrapper_closed_in_plan :
+  forall (P : Type) (resume : P -> input -> outcome P) (mk : mview -> msg) (is_status : val -> bool)
+         (susps : list nat) (p : P) (s : list input) ms acc rest p' v i s2,
+    plain s = true ->
+    lp_split is_status (LPStart (install_msgs mk susps) None) (Send VNone :: s) = (ms, Some (TRet v, acc, rest)) ->
+    after resume p (Send VNone :: rest) = Some p' ->
+    close_result (resume p' Close) = CloseOk -> ge_input i = true ->
+    trace (suspend_wrapper_resume resume mk is_status susps) (suspend_wrapper_init mk susps p) (Send VNone :: s ++ i :: s2)
+    = suspend_ref resume mk is_status susps p s ++ [closed_obs i].
+Proof. exact @suspend_closed_in_plan. Qed.
+Print Assumptions C23_suspend_wrapper_closed_in_plan.
+
+Theorem C23_subs_wrapper_closed_in_plan :
+  forall (P : Type) (resume : P -> input -> outcome P) (mk : mview -> msg) (is_status : val -> bool)
+         (set_iter : list val -> list val) (subs : list (nat * nat)) (p : P) (s : list input) ms acc rest p' v i s2,
+    plain s = true ->
+    lp_split is_status (LPStart (subscribe_msgs mk subs) None) (Send VNone :: s) = (ms, Some (TRet v, acc, rest)) ->
+    after resume p (Send VNone :: rest) = Some p' ->
+    close_result (resume p' Close) = CloseOk -> ge_input i = true ->
+    trace (subs_resume resume mk is_status set_iter) (subs_wrapper_init mk subs p) (Send VNone :: s ++ i :: s2)
+    = subs_ref resume mk is_status set_iter subs p s ++ [closed_obs i].
+Proof. exact @subs_closed_in_plan. Qed.
+Print Assumptions C23_subs_wrapper_closed_in_plan.
+
+(* run_wrapper closed / halted while the wrapped plan runs: NO close_run is emitted (closing the run is left to whoever
+   closed the plan -- the RunEngine) *)
+Theorem C23_run_wrapper_closed_in_plan :
+  forall (P : Type) (resume : P -> input -> outcome P) (mk : mview -> msg) (is_status : val -> bool)
+         (p : P) uid rest p' i s2,
+    plain rest = true -> after resume p (Send VNone :: rest) = Some p' ->
+    close_result (resume p' Close) = CloseOk -> ge_input i = true ->
+    trace (rw_resume resume mk is_status) (run_wrapper_init p) (Send VNone :: Send uid :: rest ++ i :: s2)
+    = OYield (mk VOpen) :: run_ref resume mk is_status p (Send uid :: rest) ++ [closed_obs i].
+Proof. exact @run_closed_in_plan. Qed.
+Print Assumptions C23_run_wrapper_closed_in_plan.
+
+(* in EVERY state (do-prefix, wrapped plan -- also one that ignores the close --, undo plan) a closed / halted wrapper
+   never yields again: no cleanup message ever follows a close *)
+Theorem C23_close_never_yields :
+  forall (P : Type) (resume : P -> input -> outcome P) (mk : mview -> msg) (is_status : val -> bool)
+         (set_iter : list val -> list val) (i : input),
+    ge_input i = true ->
+    (forall undo x, match sw_resume resume is_status undo (DRun x) i with Yielded _ _ => False | _ => True end) /\
+    (forall x, match subs_resume resume mk is_status set_iter (DRun x) i with Yielded _ _ => False | _ => True end) /\
+    (forall uid ph, match rw_resume resume mk is_status (RwCont uid ph) i with Yielded _ _ => False | _ => True end).
+Proof. exact @wrappers_close_never_yield. Qed.
+Print Assumptions C23_close_never_yields.
+
 (* ------------------------------------------------------------------ lazily_stage_wrapper (with fixes/C23-a.diff) *)
 From BV Require Import Gen.Mutators Gen.Insert Proofs.Lazily.
 From BV Require Gen.TieRelative.
